@@ -407,6 +407,10 @@ CORPUS = [
     (["Gümüş Ücret = 100", "gümüş ücret = 250", "gümüş ücret * 2", "GÜMÜŞ ÜCRET + 1", "ücret = 3", "Ücret + gümüş Ücret"], None),
     (["ödeme = 1", "ÖDEME = 2", "Ödeme = ödeme + 5", "ödeme"], None),
     (["Τιμή = 5", "τιμή = 6", "ΤΙΜΉ + 1", "Цена = 7", "цена = 8", "ЦЕНА * 2"], None),
+    # a name whose SECOND or later word is an operator word of the language (sum, times, minus ...): the name tokens then
+    # hold an operator token; binding, re-binding and use must still hit one variable (the first word is not bound alone)
+    (["grand sum = 10", "grand sum = 25", "grand sum + 1", "Grand Sum * 2"], None),
+    (["net times = 3", "net times = net times + 4", "net times", "rest minus = 2", "rest minus = 9", "rest minus + net times"], None),
     # words that merely CONTAIN an operator word or resemble a keyword are ordinary name words
     (["cost = 3", "cost summary = 40", "cost + 1", "cost summary * 2"], None),
     (["start = 2", "start timestamp = 100", "start timestamp + start", "rent addition = 5", "rent addition * 2"], None),
